@@ -3,6 +3,7 @@ package downlib
 
 import (
 	"context"
+	"errors"
 	"fmt"
 	"math/rand"
 	"sort"
@@ -30,6 +31,8 @@ type Scenario struct {
 	DataIDs    int    `json:"data_ids"`
 	PreReg     int    `json:"preregistered_ids"`
 	PreRegDup  bool   `json:"preregistered_list_repeats_an_id,omitempty"`
+	DupFilter  bool   `json:"two_filters_name_the_same_source_node,omitempty"`
+	ExpiredCtx bool   `json:"some_reads_use_an_expired_context,omitempty"`
 	Chunks     int    `json:"chunks"`
 	AliasPct   int    `json:"alias_form_pct"`
 	PoisonPct  int    `json:"poison_pct"`
@@ -54,6 +57,8 @@ func Gen(r *rand.Rand, quickChunks int) Scenario {
 		s.PreReg = 0
 	}
 	s.PreRegDup = s.PreReg > 0 && r.Intn(4) == 0
+	s.DupFilter = r.Intn(3) == 0
+	s.ExpiredCtx = r.Intn(3) == 0
 	s.Chunks = 20 + r.Intn(quickChunks)
 	s.AliasPct = []int{0, 50, 70, 100}[r.Intn(4)]
 	s.PoisonPct = []int{0, 0, 2, 5}[r.Intn(4)]
@@ -103,19 +108,22 @@ type MetaSent struct {
 }
 
 type Outcome struct {
-	S            Scenario
-	Sent         []SentChunk
-	Reads        []ReadRec
-	MetaSent     []MetaSent
-	MetaRead     []MetaSent // ReqID unknown on the read side: 0
-	Ledger       []broker.Entry
-	Down         broker.DownState
-	FinalState   *iscp.DownstreamState
-	CloseErr     error
-	ClosedEvents int
-	Notes        []string
-	DownID       uuid.UUID
-	PreRegIDs    map[uint32]message.DataID
+	S        Scenario
+	Sent     []SentChunk
+	Reads    []ReadRec
+	MetaSent []MetaSent
+	MetaRead []MetaSent // ReqID unknown on the read side: 0
+	// reads issued with an already cancelled context: how many got the context's error / how many were served an item
+	ExpiredReads, ExpiredReadsServed int
+	ReadStalled                      string
+	Ledger                           []broker.Entry
+	Down                             broker.DownState
+	FinalState                       *iscp.DownstreamState
+	CloseErr                         error
+	ClosedEvents                     int
+	Notes                            []string
+	DownID                           uuid.UUID
+	PreRegIDs                        map[uint32]message.DataID
 }
 
 func qos(s string) message.QoS {
@@ -158,6 +166,10 @@ func Run(s Scenario) (*Outcome, string) {
 		src := fmt.Sprintf("node-%d", i)
 		sources = append(sources, src)
 		filters = append(filters, &message.DownstreamFilter{SourceNodeID: src, DataFilters: []*message.DataFilter{{Name: "#", Type: "#"}}})
+	}
+	if s.DupFilter {
+		// a second filter for the first source node (other data filter): still one metadata stream per node, in order
+		filters = append(filters, &message.DownstreamFilter{SourceNodeID: sources[0], DataFilters: []*message.DataFilter{{Name: "extra/#", Type: "#"}}})
 	}
 	out := &Outcome{S: s, PreRegIDs: map[uint32]message.DataID{}}
 	var closedEvents atomic.Int64
@@ -338,9 +350,32 @@ func Run(s Scenario) (*Outcome, string) {
 		limit = s.CloseAfter
 	}
 	pr := rand.New(rand.NewSource(s.Seed ^ 0x5bd1))
+	stalled := false
 	for n := 0; n < limit; n++ {
 		if s.Pacing == "bursty" && pr.Intn(s.Burst) == 0 {
 			time.Sleep(time.Duration(pr.Intn(3000)) * time.Microsecond)
+		}
+		if s.ExpiredCtx && pr.Intn(4) == 0 {
+			// a polling consumer whose deadline has already passed: it gets either its context's error or a chunk,
+			// and a chunk it does not get stays in the stream
+			ectx, ecancel := context.WithCancel(ctx)
+			ecancel()
+			ech, eerr := down.ReadDataPoints(ectx)
+			if eerr != nil && errors.Is(eerr, context.Canceled) {
+				out.ExpiredReads++
+				n--
+				continue
+			}
+			out.ExpiredReadsServed++
+			rr := ReadRec{T: w.Clock.Tick()}
+			if eerr != nil {
+				rr.Err = eerr.Error()
+			} else {
+				fillRead(&rr, ech)
+			}
+			out.Reads = append(out.Reads, rr)
+			consumed.Add(1)
+			continue
 		}
 		rctx, cancel := context.WithTimeout(ctx, 30*time.Second)
 		ch, err := down.ReadDataPoints(rctx)
@@ -360,24 +395,20 @@ func Run(s Scenario) (*Outcome, string) {
 						return nil, "LOCKLEAK:" + g.InnermostLib() + "\n" + g.Text
 					}
 				}
-				return nil, fmt.Sprintf("ReadDataPoints did not return an item within 30 s (read %d of %d)", n, limit)
+				// the sender has finished and nothing is parked on a lock: an item the broker delivered never came
+				// out of ReadDataPoints - the oracle judges what was read (loss, order)
+				out.ReadStalled = fmt.Sprintf("ReadDataPoints did not return an item within 30 s (read %d of %d)", n, limit)
+				stalled = true
+				break
 			}
 			rr.Err = err.Error()
 		} else {
-			rr.Seq = ch.SequenceNumber
-			rr.Info = *ch.UpstreamInfo
-			for _, g := range ch.DataPointGroups {
-				grp := Group{ID: *g.DataID}
-				for _, p := range g.DataPoints {
-					grp.Points = append(grp.Points, uplib.PKey{ID: *g.DataID, Elapsed: p.ElapsedTime, Sum: uplib.Sum(p.Payload), Len: len(p.Payload)})
-				}
-				rr.Groups = append(rr.Groups, grp)
-			}
+			fillRead(&rr, ch)
 		}
 		out.Reads = append(out.Reads, rr)
 		consumed.Add(1)
 	}
-	if limit < total {
+	if limit < total && !stalled {
 		close(stopSend)
 	}
 	sendWG.Wait()
@@ -432,6 +463,18 @@ func groupsEqual(a, b []Group) bool {
 	return true
 }
 
+func fillRead(rr *ReadRec, ch *iscp.DownstreamChunk) {
+	rr.Seq = ch.SequenceNumber
+	rr.Info = *ch.UpstreamInfo
+	for _, g := range ch.DataPointGroups {
+		grp := Group{ID: *g.DataID}
+		for _, p := range g.DataPoints {
+			grp.Points = append(grp.Points, uplib.PKey{ID: *g.DataID, Elapsed: p.ElapsedTime, Sum: uplib.Sum(p.Payload), Len: len(p.Payload)})
+		}
+		rr.Groups = append(rr.Groups, grp)
+	}
+}
+
 // CheckC03: each delivered item once, in order, correctly resolved; poisoned chunks give an error.
 func CheckC03(o *Outcome) *uplib.Finding {
 	// expected sequence of read outcomes = sent chunks (that were put on the link) in order
@@ -468,6 +511,9 @@ func CheckC03(o *Outcome) *uplib.Finding {
 			return &uplib.Finding{Clause: "data ids, elapsed times or payloads of a returned chunk differ from what the broker sent", Key: "content-or-data-id-misresolved",
 				Detail: map[string]any{"index": i, "want": fmt.Sprint(sc.Groups), "got": fmt.Sprint(rr.Groups)}}
 		}
+	}
+	if o.ReadStalled != "" {
+		return &uplib.Finding{Clause: "an item the broker delivered never came out of ReadDataPoints (the reader waited 30 s after the sender had finished)", Key: "read-lost:reader-stalled", Detail: map[string]any{"reads": len(o.Reads), "sent": len(exp), "note": o.ReadStalled, "expired_context_reads": o.ExpiredReads}}
 	}
 	if o.S.CloseAfter < 0 && len(o.Reads) != len(exp) {
 		return &uplib.Finding{Clause: "fewer items returned than sent", Key: "read-lost", Detail: map[string]any{"reads": len(o.Reads), "sent": len(exp)}}
